@@ -1,3 +1,6 @@
+(* ADDED IN THE THIRD ROUND (TornCoreA/B.v, TornCore.v): torn writes over ALL FOUR stores for the append/reopen fragment — every write of an append
+   torn at every byte recovers (C07_torn_write_of_an_append_recovers, C07_torn_non_header_write_recovers, C07_history_with_torn_crashes).
+   ---- header of the earlier rounds: ---- *)
 (* C07 — a torn final write is tolerated like a clean crash (pinned statements, generated from the types Coq
    reports for the lemmas of Crash.v and OplogFacts.v).
    Proved at the level of the oplog file content and Oplog::open: a log ENTRY torn at any byte is ignored and cut
@@ -15,6 +18,7 @@
    Partial: torn writes to the tree / bitfield / data stores are not in these theorems (a torn page or node is
    re-derived by replay: C08_replay_exact, DESIGN 5.1); tools/c07.py tears every write of every generated
    history at every byte (<= 64 bytes) or at framing/sector boundaries and random cuts, on crate and model. *)
+From HC Require Import FlatTree Merkle Core Refine Reopen CrashCore1 CrashCore2 CrashCore3 TornCoreA TornCoreB TornCore.
 From HC Require Import Base NMap Codec CodecFacts Crypto Storage Bitfield Oplog OplogFacts StorageFacts Crash.
 
 Theorem C07_torn_entry_is_no_frame :
@@ -189,6 +193,214 @@ Theorem C07_invalid_slot_keeps_current :
           (eqb (fst (torn_bits bits)) (snd (torn_bits bits)) = true <-> slot = HEADER_SIZE).
 Proof. exact invalid_other_slot. Qed.
 
+Theorem C07_torn_write_of_an_append_recovers :
+  forall cr : crypto,
+         crc_ok cr ->
+         (forall x : bytes, Datatypes.length (cr_hash cr x) = 32%nat) ->
+         (forall x : bytes, all_zero (cr_hash cr x) = false) ->
+         (forall x : bytes, bytes_ok (cr_hash cr x) = true) ->
+         (forall sk m : bytes, Datatypes.length (cr_sign cr sk m) = 64%nat) ->
+         (forall sk m : bytes, bytes_ok (cr_sign cr sk m) = true) ->
+         forall (f : option bool) (batch : list bytes) (c : core) (d : disk) (j : list sop) 
+           (ev : list event) (bs : list bytes) (sk : bytes) (c' : core) (w' : world) 
+           (x : N * N) (delta : list sop),
+         YInv cr c d bs ->
+         kp_secret (c_keypair c) = Some sk ->
+         sumN (map len (bs ++ batch)) <= u64_max ->
+         NODE_SIZE * (2 * N.of_nat (Datatypes.length (bs ++ batch))) <= u64_max ->
+         core_append cr f batch c {| w_disk := d; w_journal := j; w_events := ev |} = (c', w', Ok x) ->
+         w_journal w' = rev delta ++ j ->
+         forall (k : nat) (s : store) (off : N) (data : bytes) (t : nat),
+         nth_error delta k = Some (SW s off data) ->
+         (t < Datatypes.length data)%nat ->
+         exists dk dkt : disk,
+           apply_sops d (firstn k delta) = Some dk /\
+           apply_sop dk (tear (SW s off data) t) = Some dkt /\
+           (tear_safe cr dk (SW s off data) t ->
+            recovers cr (c_keypair c) dkt (if (k <? 2)%nat then bs else bs ++ batch) \/
+            s = Oplog /\ off < ENTRIES_OFFSET /\ collision cr t).
+Proof. exact append_torn_recovers. Qed.
+
+Theorem C07_torn_non_header_write_recovers :
+  forall cr : crypto,
+         crc_ok cr ->
+         (forall x : bytes, Datatypes.length (cr_hash cr x) = 32%nat) ->
+         (forall x : bytes, all_zero (cr_hash cr x) = false) ->
+         (forall x : bytes, bytes_ok (cr_hash cr x) = true) ->
+         (forall sk m : bytes, Datatypes.length (cr_sign cr sk m) = 64%nat) ->
+         (forall sk m : bytes, bytes_ok (cr_sign cr sk m) = true) ->
+         forall (f : option bool) (batch : list bytes) (c : core) (d : disk) (j : list sop) 
+           (ev : list event) (bs : list bytes) (sk : bytes) (c' : core) (w' : world) 
+           (x : N * N) (delta : list sop),
+         YInv cr c d bs ->
+         kp_secret (c_keypair c) = Some sk ->
+         sumN (map len (bs ++ batch)) <= u64_max ->
+         NODE_SIZE * (2 * N.of_nat (Datatypes.length (bs ++ batch))) <= u64_max ->
+         core_append cr f batch c {| w_disk := d; w_journal := j; w_events := ev |} = (c', w', Ok x) ->
+         w_journal w' = rev delta ++ j ->
+         forall (k : nat) (s : store) (off : N) (data : bytes) (t : nat),
+         nth_error delta k = Some (SW s off data) ->
+         (t < Datatypes.length data)%nat ->
+         is_slot_write (SW s off data) = false ->
+         exists dk dkt : disk,
+           apply_sops d (firstn k delta) = Some dk /\
+           apply_sop dk (tear (SW s off data) t) = Some dkt /\
+           recovers cr (c_keypair c) dkt (if (k <? 2)%nat then bs else bs ++ batch).
+Proof. exact append_torn_recovers_plain. Qed.
+
+Theorem C07_torn_write_observations :
+  forall cr : crypto,
+         crc_ok cr ->
+         (forall x : bytes, Datatypes.length (cr_hash cr x) = 32%nat) ->
+         (forall x : bytes, all_zero (cr_hash cr x) = false) ->
+         (forall x : bytes, bytes_ok (cr_hash cr x) = true) ->
+         (forall sk m : bytes, Datatypes.length (cr_sign cr sk m) = 64%nat) ->
+         (forall sk m : bytes, bytes_ok (cr_sign cr sk m) = true) ->
+         forall (f : option bool) (batch : list bytes) (c : core) (d : disk) (j : list sop) 
+           (ev : list event) (bs : list bytes) (sk : bytes) (c' : core) (w' : world) 
+           (x : N * N) (delta : list sop),
+         YInv cr c d bs ->
+         kp_secret (c_keypair c) = Some sk ->
+         sumN (map len (bs ++ batch)) <= u64_max ->
+         NODE_SIZE * (2 * N.of_nat (Datatypes.length (bs ++ batch))) <= u64_max ->
+         core_append cr f batch c {| w_disk := d; w_journal := j; w_events := ev |} = (c', w', Ok x) ->
+         w_journal w' = rev delta ++ j ->
+         forall (k : nat) (s : store) (off : N) (data : bytes) (t : nat),
+         nth_error delta k = Some (SW s off data) ->
+         (t < Datatypes.length data)%nat ->
+         exists dk dkt : disk,
+           apply_sops d (firstn k delta) = Some dk /\
+           apply_sop dk (tear (SW s off data) t) = Some dkt /\
+           (tear_safe cr dk (SW s off data) t ->
+            (exists (ck : core) (dk' : disk) (ops : list sop),
+               core_open cr None true dkt = (dk', ops, Ok ck) /\
+               (obs_list ck dk' bs \/ obs_list ck dk' (bs ++ batch))) \/
+            s = Oplog /\ off < ENTRIES_OFFSET /\ collision cr t).
+Proof. exact append_torn_observations. Qed.
+
+Theorem C07_torn_data_write_of_panicking_append :
+  forall cr : crypto,
+         crc_ok cr ->
+         (forall x : bytes, Datatypes.length (cr_hash cr x) = 32%nat) ->
+         (forall x : bytes, all_zero (cr_hash cr x) = false) ->
+         (forall x : bytes, bytes_ok (cr_hash cr x) = true) ->
+         (forall sk m : bytes, Datatypes.length (cr_sign cr sk m) = 64%nat) ->
+         (forall sk m : bytes, bytes_ok (cr_sign cr sk m) = true) ->
+         forall (f : option bool) (batch : list bytes) (c : core) (d : disk) (j : list sop) 
+           (ev : list event) (bs : list bytes) (sk : bytes) (c' : core) (w' : world) 
+           (s : string),
+         YInv cr c d bs ->
+         kp_secret (c_keypair c) = Some sk ->
+         sumN (map len (bs ++ batch)) <= u64_max ->
+         NODE_SIZE * (2 * N.of_nat (Datatypes.length (bs ++ batch))) <= u64_max ->
+         core_append cr f batch c {| w_disk := d; w_journal := j; w_events := ev |} = (c', w', Panic s) ->
+         s = frame_msg /\
+         c' = c /\
+         w_events w' = ev /\
+         (exists o : sop,
+            w_journal w' = o :: j /\
+            apply_sop d o = Some (w_disk w') /\
+            recovers cr (c_keypair c) (w_disk w') bs /\
+            (forall t : nat,
+             exists dt : disk, apply_sop d (tear o t) = Some dt /\ recovers cr (c_keypair c) dt bs)).
+Proof. exact append_panic_torn_recovers. Qed.
+
+Theorem C07_history_with_torn_crashes :
+  forall cr : crypto,
+         crc_ok cr ->
+         (forall x : bytes, Datatypes.length (cr_hash cr x) = 32%nat) ->
+         (forall x : bytes, all_zero (cr_hash cr x) = false) ->
+         (forall x : bytes, bytes_ok (cr_hash cr x) = true) ->
+         (forall sk m : bytes, Datatypes.length (cr_sign cr sk m) = 64%nat) ->
+         (forall sk m : bytes, bytes_ok (cr_sign cr sk m) = true) ->
+         forall (ops : list top) (c : core) (d : disk) (j : list sop) (ev : list event) 
+           (bs : list bytes) (sk : bytes),
+         YInv cr c d bs ->
+         kp_secret (c_keypair c) = Some sk ->
+         sumN (map len (bs ++ tappended ops)) <= u64_max ->
+         NODE_SIZE * (2 * N.of_nat (Datatypes.length (bs ++ tappended ops))) <= u64_max ->
+         trun_safe cr ops c {| w_disk := d; w_journal := j; w_events := ev |} ->
+         trun_obs cr ops c {| w_disk := d; w_journal := j; w_events := ev |} = tspec_obs ops bs \/
+         (exists k : nat,
+            trun_obs cr ops c {| w_disk := d; w_journal := j; w_events := ev |} =
+            firstn k (tspec_obs ops bs) ++ [XOAppend (Panic frame_msg)]) \/ (exists t : nat, collision cr t).
+Proof. exact torn_history_correct. Qed.
+
+Theorem C07_fresh_history_with_torn_crashes :
+  forall cr : crypto,
+         crc_ok cr ->
+         (forall x : bytes, Datatypes.length (cr_hash cr x) = 32%nat) ->
+         (forall x : bytes, all_zero (cr_hash cr x) = false) ->
+         (forall x : bytes, bytes_ok (cr_hash cr x) = true) ->
+         (forall sk m : bytes, Datatypes.length (cr_sign cr sk m) = 64%nat) ->
+         (forall sk m : bytes, bytes_ok (cr_sign cr sk m) = true) ->
+         forall (kp : keypair) (sk : bytes) (ops : list top),
+         keypair_ok kp = true ->
+         kp_secret kp = Some sk ->
+         sumN (map len (tappended ops)) <= u64_max ->
+         NODE_SIZE * (2 * N.of_nat (Datatypes.length (tappended ops))) <= u64_max ->
+         tears_ok false ops ->
+         exists (d0 : disk) (ops0 : list sop) (c0 : core),
+           core_open cr (Some kp) false disk_empty = (d0, ops0, Ok c0) /\
+           (trun_obs cr ops c0 {| w_disk := d0; w_journal := []; w_events := [] |} = tspec_obs ops [] \/
+            (exists k : nat,
+               trun_obs cr ops c0 {| w_disk := d0; w_journal := []; w_events := [] |} =
+               firstn k (tspec_obs ops []) ++ [XOAppend (Panic frame_msg)]) \/ (exists t : nat, collision cr t)).
+Proof. exact fresh_torn_history_correct. Qed.
+
+Theorem C07_tears_side_condition :
+  forall cr : crypto,
+         crc_ok cr ->
+         (forall x : bytes, Datatypes.length (cr_hash cr x) = 32%nat) ->
+         (forall x : bytes, all_zero (cr_hash cr x) = false) ->
+         (forall x : bytes, bytes_ok (cr_hash cr x) = true) ->
+         (forall sk m : bytes, Datatypes.length (cr_sign cr sk m) = 64%nat) ->
+         (forall sk m : bytes, bytes_ok (cr_sign cr sk m) = true) ->
+         forall (ops : list top) (seen : bool) (c : core) (d : disk) (j : list sop) 
+           (ev : list event) (bs : list bytes) (sk : bytes),
+         tears_ok seen ops ->
+         YInv cr c d bs ->
+         kp_secret (c_keypair c) = Some sk ->
+         sumN (map len (bs ++ tappended ops)) <= u64_max ->
+         NODE_SIZE * (2 * N.of_nat (Datatypes.length (bs ++ tappended ops))) <= u64_max ->
+         (seen = false -> hyg cr (f_content (d_oplog d))) ->
+         trun_safe cr ops c {| w_disk := d; w_journal := j; w_events := ev |} \/
+         (exists t : nat, collision cr t).
+Proof. exact tears_ok_safe. Qed.
+
+Theorem C07_torn_tolerant_invariant_at_creation :
+  forall cr : crypto,
+         crc_ok cr ->
+         (forall x : bytes, Datatypes.length (cr_hash cr x) = 32%nat) ->
+         (forall x : bytes, all_zero (cr_hash cr x) = false) ->
+         (forall x : bytes, bytes_ok (cr_hash cr x) = true) ->
+         forall kp : keypair,
+         keypair_ok kp = true ->
+         exists (d0 : disk) (ops0 : list sop) (c0 : core),
+           core_open cr (Some kp) false disk_empty = (d0, ops0, Ok c0) /\
+           YInv cr c0 d0 [] /\ c_keypair c0 = kp /\ hyg cr (f_content (d_oplog d0)).
+Proof. exact YInv_init. Qed.
+
+Theorem C07_torn_disk_reopens :
+  forall cr : crypto,
+         crc_ok cr ->
+         (forall x : bytes, Datatypes.length (cr_hash cr x) = 32%nat) ->
+         (forall x : bytes, all_zero (cr_hash cr x) = false) ->
+         (forall x : bytes, bytes_ok (cr_hash cr x) = true) ->
+         forall (kp : keypair) (d : disk) (bs : list bytes),
+         YDisk cr kp d bs ->
+         exists (c' : core) (d' : disk) (ops : list sop),
+           core_open cr None true d = (d', ops, Ok c') /\
+           YInv cr c' d' bs /\
+           c_keypair c' = kp /\
+           c_skip c' = 0 /\
+           d_tree d' = d_tree d /\
+           d_data d' = d_data d /\
+           d_bitfield d' = d_bitfield d /\
+           (ops = [] /\ d' = d \/ ops = [ST Oplog ENTRIES_OFFSET]) /\
+           (hyg cr (f_content (d_oplog d)) -> hyg cr (f_content (d_oplog d'))).
+Proof. exact reopen_Y. Qed.
+
 Print Assumptions C07_torn_entry_is_no_frame.
 Print Assumptions C07_torn_append_recovers_before.
 Print Assumptions C07_torn_flush_before_after_or_collision.
@@ -198,3 +410,17 @@ Print Assumptions C07_torn_make_read_only.
 Print Assumptions C07_torn_creation_is_empty.
 Print Assumptions C07_torn_then_rest_is_whole_write.
 Print Assumptions C07_invalid_slot_keeps_current.
+Print Assumptions C07_torn_write_of_an_append_recovers.
+Print Assumptions C07_torn_non_header_write_recovers.
+Print Assumptions C07_torn_write_observations.
+Print Assumptions C07_torn_data_write_of_panicking_append.
+Print Assumptions C07_history_with_torn_crashes.
+Print Assumptions C07_fresh_history_with_torn_crashes.
+Print Assumptions C07_tears_side_condition.
+Print Assumptions C07_torn_tolerant_invariant_at_creation.
+Print Assumptions C07_torn_disk_reopens.
+Print Assumptions TornCore.toy_torn_history.
+Print Assumptions TornCore.toy_every_tear_of_a_flushing_append.
+Print Assumptions TornCore.torn_page_partial.
+Print Assumptions TornCore.reopen_to_XInv_refuted.
+Print Assumptions TornCore.toy_torn_history2.
